@@ -71,6 +71,20 @@ def generate(quick):
             for tr in ("is_copy_constructible_v", "is_move_constructible_v", "is_copy_assignable_v", "is_move_assignable_v", "is_default_constructible_v"):
                 t.add("static_assert(std::%s<%s> == std::%s<%s>);" % (tr, ep, tr, sp), "%s<pair<%s,%s>>" % (tr, a, b))
                 t.add("static_assert(std::%s<%s> == std::%s<%s>);" % (tr, et, tr, st), "%s<tuple<%s,%s>>" % (tr, a, b))
+    # converting construction / assignment between pairs (and tuples) of different element types and value categories
+    conv = [("int", "int"), ("long", "int"), ("long", "int&"), ("m::CopyOnly", "m::CopyOnly&"), ("m::CopyOnly", "m::CopyOnly"),
+            ("m::CopyOnly", "m::CopyOnly const&"), ("m::MoveOnly", "m::MoveOnly"), ("m::MoveOnly", "m::MoveOnly&"), ("int const&", "int&")]
+    for a, c in conv:
+        for q in QUALS:
+            t = tu()
+            for tmpl in ("pair",):        # etl::tuple has no converting constructors at all (known finding): pair only
+                e1, e2 = "etl::%s<%s, int>" % (tmpl, a), "etl::%s<%s, int>" % (tmpl, c)
+                s1, s2 = "std::%s<%s, int>" % (tmpl, a), "std::%s<%s, int>" % (tmpl, c)
+                t.add("static_assert(std::is_constructible_v<%s, %s %s> == std::is_constructible_v<%s, %s %s>);" % (e1, e2, q, s1, s2, q),
+                      "is_constructible<%s<%s,int>, %s<%s,int> %s>" % (tmpl, a, tmpl, c, q))
+                if "&" not in a and "const" not in a:
+                    t.add("static_assert(std::is_assignable_v<%s&, %s %s> == std::is_assignable_v<%s&, %s %s>);" % (e1, e2, q, s1, s2, q),
+                          "is_assignable<%s<%s,int>&, %s<%s,int> %s>" % (tmpl, a, tmpl, c, q))
     t = tus[0]
     for args in ("int, double", "int&, m::MoveOnly", "char const(&)[3], int", "std::reference_wrapper<int>, int", "etl::reference_wrapper<int>, int const&"):
         ea = args
